@@ -222,7 +222,6 @@ def write_evidence(prop, tier, seed, ded, rt, violations, known_hit, wall, undec
 def do_replay(prop, path):
     r = json.load(open(path))
     if r.get("tier") == "rt":
-        import importlib
         from rt import common
         mod = importlib.import_module(f"rt.{prop.lower()}")
         ctx = common.Ctx(prop)
